@@ -99,7 +99,10 @@ impl VoronoiCell {
         VoronoiCell::init(loc, centroid, volume, convex_cell.safety_radius, convex_cell.idx)
     }
 
-    pub(super) fn finalize(&mut self, face_connections_offset: usize, face_count: usize) {
+    pub(super) fn finalize(&mut self, idx: usize, face_connections_offset: usize, face_count: usize) {
+        // Cells that were not constructed (partial construction) are `VoronoiCell::default()`:
+        // they must also know their own index, `neighbour_ids` relies on it.
+        self.idx = idx;
         self.face_connections_offset = face_connections_offset;
         self.face_count = face_count;
     }
